@@ -393,6 +393,39 @@ pub fn generate(rng: &mut Rng, max_ops: usize) -> Workload {
                 b = Some(copy);
                 descr.push("clone".into());
             }
+            15 if len < 40 && rng.chance(1, 2) => {
+                // iteration over an array whose length changes in the loop body: the loop walks
+                // the live array by position (elements pushed during the loop are visited,
+                // the loop ends when the position reaches the current length). The body never
+                // shrinks the array below the position already reached.
+                let grows = rng.chance(1, 2);
+                let limit = len + rng.range(1, 3) as usize;
+                let v = fresh(rng, kind, false);
+                src.push_str(&format!("var seen{tag} = \"\"\nvar k{tag} = 0\nfor x in a {{\n    k{tag} = k{tag} + 1\n    seen{tag} = seen{tag} .. show_e(x) .. \";\"\n"));
+                if grows {
+                    src.push_str(&format!("    if a.len() < {limit} {{ a.push({}) }}\n", v.src()));
+                } else {
+                    src.push_str(&format!("    if a.len() > k{tag} {{ a.pop() }}\n"));
+                }
+                src.push_str(&format!("}}\nobs({tag}, seen{tag} .. k{tag})\n"));
+                let mut seen = String::new();
+                let mut i = 0;
+                while i != a.len() {
+                    seen.push_str(&a[i].show());
+                    seen.push(';');
+                    i += 1;
+                    if grows {
+                        if a.len() < limit {
+                            a.push(v.clone());
+                        }
+                    } else if a.len() > i {
+                        a.pop();
+                    }
+                }
+                obs.push((tag, format!("{seen}{i}")));
+                tag += 1;
+                descr.push(if grows { "iter-while-pushing".into() } else { "iter-while-popping".into() });
+            }
             15 => {
                 src.push_str(&format!("obs({tag}, iter_all(a))\n"));
                 let mut s = String::new();
